@@ -34,6 +34,11 @@ Eval vm_compute in map (fun e => (e_name e, e_map e, e_new_ok e, e_newenum_ok e,
     m = re.search(r'"BAD"%string, \[(.*?)\], "N"', flat)
     if not m:
         return
+    notes = dict(re.findall(r"\(\* obs_enum_history_note (\w+): (.*?) \*\)", open(common.GEN + "/ObsEnum.v").read()))
     for name in re.findall(r'"(\w+)"%string', m.group(1))[:10]:
+        if name in notes:
+            res.add_violation("enumeration %s: %s" % (name, notes[name]), key="C14:history:%s" % name,
+                              input={"factory": name, "history": notes[name]}, observed=flat[-1500:])
+            continue
         res.add_violation("enumeration %s: New/NewEnum disagree with IntToStringMap (success iff key, index = v, non-empty mapped name)" % name,
                           key="C14:%s" % name, input={"factory": name}, observed=flat[-1500:])
